@@ -48,7 +48,7 @@ seq(prop="C05", lean_targets=["TransportVerif.Props.C05"], driver_args=["C05"],
 _RING_COMMON = dict(
     pkg="packetio", run="^TestVerifRing$", component="ring",
     files=["ring_test.go"], wb_files=["ring_wb_test.go"],
-    quick_n=1500, thorough_n=60000,
+    quick_n=1000, thorough_n=60000,
     variants=[dict(), dict(tags="packetioSizeHardlimit")],
     trusted=LEAN_TB + [
         "hand-written Lean model of packetio/buffer.go (Model/Ring.lean), validated on every run against the real Buffer: results, Count, Size (L1) and head/tail/len(data)/count (L2) after every operation, in the default build and with -tags packetioSizeHardlimit",
@@ -119,5 +119,21 @@ seq(prop="C20", lean_targets=["TransportVerif.Props.C20"], pkg="utils/xor", inpk
     level_note="Trusted: Lean kernel + standard axioms; crypto/subtle.XORBytes (stdlib assembly) as its documented contract; word XOR = bytewise XOR of the memory images; xor_arm.go/.s cannot be built or run on amd64 and is not covered; alignment (start offsets) is exercised by the harness only.",
     trusted=LEAN_TB + ["Model/Xor.lean validated against both builds (generic, and xor_old.go via -tags gccgo) on every run", "crypto/subtle.XORBytes contract"],
     assumptions=["exact aliasing only (dst is a or b or disjoint); partial overlap is outside the property", "xor_arm.go not covered (cannot run on amd64)"])
+
+_C18_TB = LEAN_TB + ["hand-written Lean models Model/Bridge.lean and Model/DPipe.lean validated against test.Bridge and dpipe.Pipe on every run (answers, queue lengths; stack sizes and counters white-box)",
+                     "reading of C18 in Spec/Pipe.lean (Lane: first applicable rule of drop count / reorder block / filter; DPipe: two bounded FIFOs)"]
+seq(prop="C18", lean_targets=["TransportVerif.Props.C18"], pkg="test", run="^TestVerifBridge$", component="bridge",
+    files=["bridge_h_test.go"], wb_files=["bridge_wb_test.go"], quick_n=4000, thorough_n=150000,
+    nontrivial=["block-complete", "block-of-one", "reordernext-during-block", "drop-beyond", "drop-clamped", "filtered", "dropped-by-count", "cut", "reorder-queue"],
+    rule="random scripts (10..60 ops + drain) of writes in both directions interleaved with DropNextNWrites, ReorderNextNWrites (repeated, n = -1,0,1,2,3,4), "
+         "Drop (offsets inside, at and beyond the queue length, counts <= 0), Reorder, Filter, and deliveries into slices of 0..100 bytes (a reader is parked, then Tick); "
+         "dpipe part: scripts of writes/reads/close on both ends, 3% fill a channel to capacity. non-trivial = a reorder block completes, a Drop is clamped or beyond "
+         "the queue, a write is filtered or dropped by count, a delivery is cut; distinct = hash of the ops text",
+    design_ref="DESIGN.md 7.18",
+    technique="Lean 4 proof: Bridge model (two hand-duplicated directions, stack+inverse) refines the symmetric list script; dpipe model refines two bounded FIFOs; no-dup/no-invention/conservation as corollaries on the spec; differential correspondence with test.Bridge and dpipe.Pipe",
+    level_text="PENDING", level_note="PENDING",
+    trusted=_C18_TB, assumptions=["Bridge endpoints are not closed and SetLossChance is 0 (outside the property's quantifier)", "sequential scripts; a delivery is one Tick with exactly one parked reader"],
+    variants=[dict(name="bridge"),
+              dict(name="dpipe", pkg="dpipe", inpkg="dpipe", run="^TestVerifDPipe$", component="dpipe", files=["dpipe_h_test.go"], wb_files=["dpipe_wb_test.go"])])
 
 ALL = SEQ
